@@ -1,6 +1,5 @@
 /- Line-protocol driver for the cpc family (C05). Core Lean only. -/
-import DSModel.Canon
-import DSModel.Cpc.Sketch
+import DSModel.Cpc.Input
 import DSModel.Cpc.Estimator
 namespace DS.Cpc
 
@@ -26,11 +25,6 @@ def observe (T : Tabs) (s : Sketch) : String :=
   let b := (List.range 3).map (fun i => s!"{hexF (lowerBound T.est s (i+1))} {hexF (upperBound T.est s (i+1))}")
   s!"S {s.lgK} {s.numCoupons} {boolStr (validate s)} {boolStr (s.numCoupons == 0)} {hexF (estimate T.est s)} {joinSp b}"
 
-def updateInput (T : Tabs) (seed : UInt64) (s : Sketch) (i : Input) : Sketch :=
-  match hashInput i seed with
-  | some (h1, h2) => rowColUpdate T.hip s (rowCol h1 h2 s.lgK)
-  | none => s
-
 def stepLine (T : Tabs) (o : Objs) (w : List String) : Objs × String :=
   match w with
   | ["new", id, lgk, seed] =>
@@ -45,7 +39,7 @@ def stepLine (T : Tabs) (o : Objs) (w : List String) : Objs × String :=
     | some id, some inp =>
       match o.get' id with
       | some (.sk seed s) =>
-        let s' := updateInput T seed s inp
+        let s' := updateInput T.hip seed s inp
         (o.set' id (.sk seed s'), observe T s')
       | _ => (o, "bad-op")
     | _, _ => (o, "bad-op")
@@ -54,7 +48,7 @@ def stepLine (T : Tabs) (o : Objs) (w : List String) : Objs × String :=
     | some id, some start, some n =>
       match o.get' id with
       | some (.sk seed s) =>
-        let s' := (List.range n).foldl (fun s i => updateInput T seed s (.u64 (start + i))) s
+        let s' := (List.range n).foldl (fun s i => updateInput T.hip seed s (.u64 (start + i))) s
         (o.set' id (.sk seed s'), observe T s')
       | _ => (o, "bad-op")
     | _, _, _ => (o, "bad-op")
@@ -73,6 +67,10 @@ def hashStep (w : List String) : String :=
       | some (h1, h2) => s!"H {hex64 h1} {hex64 h2} {rowCol h1 h2 lgk}"
       | none => "H ignored"
     | _, _, _ => "bad-op"
+  | ["mm", b, seed] =>
+    match parseHexBytes b, seed.toNat? with
+    | some b, some s => let (h1, h2) := murmur3 b (UInt64.ofNat s); s!"M {hex64 h1} {hex64 h2}"
+    | _, _ => "bad-op"
   | _ => "bad-op"
 
 end DS.Cpc
